@@ -659,7 +659,8 @@ def check_problem_union(ctx, cp, wp, W, what):
         # the problem exporter prints numeric goals with 4 decimals (its stated precision): compare at that precision
         def r4(g):
             return repr(("cmp", g[1], G.canon_x(g[2]), round(float(g[3]), 4) + 0.0 if isinstance(g[3], (int, float)) else G.canon_x(g[3])))
-        want_num = sorted({r4(g) for g in P.get("goal_num", [])})
+        # (distinct goals that print alike at that precision legitimately appear once each)
+        want_num = sorted(r4(g) for g in P.get("goal_num", []))
         got_num = sorted(r4(g) for g in wp["goal_num"])
     if got_num != want_num:
         dup = len(got_num) != len(set(got_num))
